@@ -353,6 +353,11 @@ func (n *node) addLink(l *fakeLink) {
 	n.linkH.HandleValueAdded(n.linkDi, directive.NewAttachedValue(uint32(l.uuid), link.MountedLink(l)))
 }
 
+// removeLink reports the link as gone through the EstablishLinkWithPeer watcher.
+func (n *node) removeLink(l *fakeLink) {
+	n.linkH.HandleValueRemoved(n.linkDi, directive.NewAttachedValue(uint32(l.uuid), link.MountedLink(l)))
+}
+
 // streamHandler asks the controller for the handler of an incoming stream.
 func (n *node) streamHandler(pid protocol.ID, local, remote peer.ID) link.MountedStreamHandler {
 	di := &fakeInst{dir: link.NewHandleMountedStream(pid, local, remote), ctx: n.ctx}
